@@ -28,7 +28,12 @@ def confirm(pid, wt, sd, features):
     # 3. the demonstration fails with the change and passes without it
     demo = os.path.join(sd, "demo_test.rs")
     if os.path.exists(demo):
-        lib = os.path.join(wt, "src", "lib.rs")
+        target = "src/lib.rs"
+        try:
+            target = json.load(open(os.path.join(sd, "meta.json"))).get("demo_test_goes_into", "src/lib.rs")
+        except Exception:
+            pass
+        lib = os.path.join(wt, target)
         orig = open(lib).read()
         body = open(demo).read()
         names = re.findall(r"fn (\w+)\(\)", body)
